@@ -67,7 +67,7 @@ func vc12Seeds(dir string, rng *vh.Rng) ([]c12h.Seed, error) {
 	path := filepath.Join(dir, "real.index")
 	w, err := NewWriter(path)
 	if err != nil {
-		return nil, err
+		return seeds, err
 	}
 	var sigs [][]byte
 	for i := 0; i < 40; i++ {
@@ -80,23 +80,24 @@ func vc12Seeds(dir string, rng *vh.Rng) ([]c12h.Seed, error) {
 		sigs = append(sigs, append([]byte(nil), s[:]...))
 	}
 	if _, err := w.Seal(meta); err != nil {
-		return nil, err
+		return seeds, err
 	}
 	if err := w.Close(); err != nil {
-		return nil, err
+		return seeds, err
 	}
 	data, err := os.ReadFile(path)
 	if err != nil {
-		return nil, err
+		return seeds, err
 	}
 	sigs = append(sigs[:6], rng.Bytes(64))
 	seeds = append(seeds, c12h.Seed{Name: "real", Data: data, Keys: sigs})
-	for i := range seeds {
-		in := c12h.Input{Entry: "has", Data: seeds[i].Data, Keys: seeds[i].Keys, Aux: []uint64{0}}
-		if o := vc12Exec(&in); o.Class != "ok" || (len(seeds[i].Keys) > 1 && o.Fine != "present") {
-			return nil, fmt.Errorf("seed %s does not open and answer (%s %s)", seeds[i].Name, o.Class, o.Fine)
+	seeds = c12h.KeepSeeds(seeds, func(i int, s *c12h.Seed) error {
+		in := c12h.Input{Entry: "has", Data: s.Data, Keys: s.Keys, Aux: []uint64{0}}
+		if o := vc12Exec(&in); o.Class != "ok" || (len(s.Keys) > 1 && o.Fine != "present") {
+			return fmt.Errorf("does not open and answer (%s %s)", o.Class, o.Fine)
 		}
-	}
+		return nil
+	})
 	return seeds, nil
 }
 
